@@ -383,9 +383,43 @@ theorem parseRegMessage_no_panic (m : ZmqMsg) (hc : m.consistent) (e4 e6 b4 b6 :
     · rw [if_pos hb]; exact .ok _
     · rw [if_neg hb]; exact .ok _
 
-/-- tie 1: every field access through a protobuf sub-message pointer that the extractor finds in the
-entry-point files of the tree is guarded by a nil check -/
+/-- tie 1: every field access written as `x.Sub.Field` through a protobuf sub-message pointer that the
+extractor finds in the packages a registration message, a first flight or a registration request passes
+through (`scannedFiles` source files; the sub-message fields are taken from the generated protobuf types)
+is guarded by a nil check -/
 theorem entrypoints_nil_safe : ∀ s ∈ CJ.Gen.C11.derefSites, s.guarded = true := by decide
+
+/-- Field accesses through a local name that holds a sub-message (`p := x.GetSub()`, then `p.Field`) that no
+nil check guards where they stand, with the reason each is safe all the same:
+* `NewRegistrationC2SWrapper`, `c2s.TransportParams`: the write through the payload pointer that
+  `newRegistrationC2SWrapper` models as a partial operation; `parseRegMessage_no_panic` shows it is only
+  reached when the payload is there;
+* `processBdReq`, `regResp.…`: the response is re-read from the wrapper after `regOverrides.Override` ran
+  on it; that an override never removes the response it is given is its contract (the harness runs the
+  production override on every request it generates). -/
+def aliasDischarged : List (String × String) :=
+  [("NewRegistrationC2SWrapper", "c2s.TransportParams"), ("processBdReq", "regResp.DstPort"),
+   ("processBdReq", "regResp.Ipv4Addr")]
+
+/-- tie 1, aliases: every other access through such a local name is guarded by a nil check of the name or
+of the expression it was assigned from. A new unguarded one (say `src := params.GetSrcAddr4(); src.IP`)
+makes this false. -/
+theorem alias_derefs_nil_safe :
+    ∀ s ∈ CJ.Gen.C11.aliasSites, s.guarded = true ∨ (s.fn, s.expr) ∈ aliasDischarged := by decide
+
+/-- Explicit dereferences of an optional scalar without a check: only `RegistrationSource` of a
+`DecoyRegistration`, which `NewRegistration` always sets (`&regSrc`); the station harness asserts on every
+registration `parseRegMessage` returns that it is there (signature `registration-without-source`). -/
+def starDischarged : List (String × String) :=
+  [("ingestRegistration", "*reg.RegistrationSource"), ("AddRegStats", "*source")]
+
+/-- tie 1, `*x.F`: every other explicit dereference of an optional scalar is guarded -/
+theorem star_derefs_nil_safe :
+    ∀ s ∈ CJ.Gen.C11.starSites, s.guarded = true ∨ (s.fn, s.expr) ∈ starDischarged := by decide
+
+/-- the scan is not empty-handed: it read the entry packages and found sites of each kind -/
+theorem extractor_saw_the_code : 40 ≤ CJ.Gen.C11.scannedFiles ∧ 10 ≤ CJ.Gen.C11.derefSites.length ∧
+    5 ≤ CJ.Gen.C11.aliasSites.length ∧ 3 ≤ CJ.Gen.C11.starSites.length := by decide
 
 /-! ## non-vacuity -/
 
